@@ -739,7 +739,7 @@ class Opaque(Type):
         except (ExtensionRegistry.ExtensionNotFound, Extension.TypeNotFound):
             return self
 
-        return ExtType(type_def, self.args)
+        return ExtType(type_def, [arg.resolve(registry) for arg in self.args])
 
     def __str__(self) -> str:
         return _type_str(self.id, self.args)
